@@ -21,6 +21,7 @@ RULE = ("Hypothesis: (sequence, numerator, denominator in {1,2,3,4,6,8,12,16,24,
         "signature, key and content and shares no message object. Non-trivial: duration != capacity or a signature event "
         "present. Distinct by case digest.")
 RULE = RULE + " Rounds e-f: zero-length grace notes, a read of the absolute view / duration before copy, arbitrary ill-formed relative lists ('any sequence')."
+RULE = RULE + " Round h: an INTERNAL end marker added through add_absolute_message after the relative view was read."
 ASSUMPTIONS = ["a duplicate identical signature may be accepted or rejected (normalise may merge it)"]
 TIERS = {"quick": dict(shards=8, examples=1200), "thorough": dict(fuzz_runs=20000, fuzz_shards=4, shards=16, examples=15000)}
 
@@ -78,6 +79,10 @@ def _case(draw):
     case = {"seq": spec, "num": num, "den": den, "key": draw(st.one_of(st.none(), st.sampled_from(gens.KEYS)))}
     # what happens between construction and copy: nothing, or a read of the bar's absolute view / duration
     case["consult"] = draw(st.sampled_from([None, None, "abs", "duration"]))
+    if draw(st.integers(0, 5)) == 0:
+        # the way detokenise marks the end of a sequence: an INTERNAL marker added through add_absolute_message (here after the
+        # relative view was read once), at a tick around the capacity
+        case["end_marker"] = draw(st.one_of(st.integers(0, 2 * cap + 5), st.sampled_from([cap, cap + 1, 3 * cap])))
     if draw(st.integers(0, 6)) == 0:
         # "any sequence": an arbitrary, possibly ill-formed relative message list (unclosed, re-struck, orphaned notes; the first
         # message may be an unclosed note-on), durations around the capacity
@@ -143,6 +148,16 @@ def check(case):
         if built is None:
             return out
         seq, ev0, d0, notes0 = built
+    if case.get("end_marker") is not None and not case.get("raw") and not case.get("grace"):
+        out.label("end-marker-added")
+        try:
+            seq.is_empty()
+            _ = seq.rel
+            seq.add_absolute_message(Message(message_type=MT.INTERNAL, time=case["end_marker"]))
+            d0 = max(d0, case["end_marker"])
+        except Exception as e:
+            out.inconclusive = f"end-marker-raised:{type(e).__name__}"
+            return out
     ts0 = [(e[5], e[6]) for e in ev0 if e[1] == O.TS]
     conflicting = any(v != (num, den) for v in ts0)
     must_reject = d0 > cap or conflicting
